@@ -820,6 +820,32 @@ func checkTreeTop(p *core.Program, r *core.Report, tm *treeModel, eng *tf.Engine
 				}
 			}
 		}
+		// the leaf that is updated and the leaf whose path is returned are the one the caller named: the index operand of
+		// the update call and of the proof call is Update's own parameter, untouched (an "index %= …" normalisation maps
+		// some caller indices onto other leaves)
+		if rootStore != nil {
+			if uc, isUpd := tm.isUpdateResult(rootStore.Val); isUpd && len(uc.Common().Args) >= 2 && len(upd.Params) >= 2 {
+				ixArg := uc.Common().Args[0]
+				if !uc.Common().IsInvoke() {
+					ixArg = uc.Common().Args[1] // a static method call carries the receiver first
+				}
+				if ixArg != ssa.Value(upd.Params[1]) {
+					probs = append(probs, "the index handed to the update is not Update's index parameter itself")
+				}
+			}
+		}
+		if proofCall != nil && len(proofCall.Common().Args) >= 1 {
+			want := ssa.Value(upd.Params[1])
+			if helper != nil && len(helper.Params) >= 2 {
+				want = helper.Params[1]
+				if helperCall != nil && len(helperCall.Common().Args) >= 2 && helperCall.Common().Args[1] != ssa.Value(upd.Params[1]) {
+					probs = append(probs, "the index handed to the proof helper is not Update's index parameter itself")
+				}
+			}
+			if proofCall.Common().Args[0] != want {
+				probs = append(probs, "the index the proof is taken for is not Update's index parameter itself")
+			}
+		}
 		r.Check(len(probs) == 0, "O18.3", name+": root replaced, then proof of depth entries taken from it", p.Pos(upd.Pos()), "root = root.update(i, v) ≺ proof := make(depth(root)) ≺ root.proof(i, proof)", strings.Join(probs, "; "))
 	}
 	// NewTree
